@@ -14,6 +14,29 @@ import (
 // RegistryInvariants recomputes the registry indexes and stake claims from the primary records of
 // a committed state and returns (signature, description) of the first inconsistency, or "".
 func RegistryInvariants(v *View, dump StateDump) (string, string) {
+	sig, msg, _ := RegistryInvariantsEx(v, dump)
+	return sig, msg
+}
+
+// WrongClaim is one stake claim whose recorded thresholds differ from the ones the registry implies.
+type WrongClaim struct {
+	Account staking.Address
+	Claim   staking.StakeClaim
+	Msg     string
+}
+
+// RegistryInvariantsEx is RegistryInvariants that reports EVERY claim with wrong thresholds (signature
+// "wrong-stake-claim", message of the first one) instead of stopping at the first.
+func RegistryInvariantsEx(v *View, dump StateDump) (string, string, []WrongClaim) {
+	var wrong []WrongClaim
+	sig, msg := registryInvariants(v, dump, &wrong)
+	if sig == "" && len(wrong) > 0 {
+		return "wrong-stake-claim", wrong[0].Msg, wrong
+	}
+	return sig, msg, wrong
+}
+
+func registryInvariants(v *View, dump StateDump, wrong *[]WrongClaim) (string, string) {
 	ctx := v.Ctx()
 	nodes, err := v.Reg.Nodes(ctx)
 	if err != nil {
@@ -156,11 +179,13 @@ func RegistryInvariants(v *View, dump StateDump) (string, string) {
 				return "missing-stake-claim", fmt.Sprintf("account %s lacks stake claim %q implied by the registry", a, c)
 			}
 			if len(g) != len(th) {
-				return "wrong-stake-claim", fmt.Sprintf("account %s claim %q has %d thresholds, the registry implies %d", a, c, len(g), len(th))
+				*wrong = append(*wrong, WrongClaim{a, c, fmt.Sprintf("account %s claim %q has %d thresholds, the registry implies %d", a, c, len(g), len(th))})
+				continue
 			}
 			for i := range g {
 				if !g[i].Equal(&th[i]) {
-					return "wrong-stake-claim", fmt.Sprintf("account %s claim %q threshold %d is %v, the registry implies %v", a, c, i, g[i], th[i])
+					*wrong = append(*wrong, WrongClaim{a, c, fmt.Sprintf("account %s claim %q threshold %d is %v, the registry implies %v", a, c, i, g[i], th[i])})
+					break
 				}
 			}
 		}
